@@ -193,6 +193,28 @@ def overwritten_accumulators(ff: FuncFlow) -> List[Tuple[ast.stmt, str]]:
   return out
 
 
+def set_order_uses(ff: FuncFlow) -> List[Tuple[ast.AST, str]]:
+  """An ordered sequence made from a set (list(set(x)), tuple(set(x)), a loop or comprehension over set(x) that builds a list): the
+  order of a set of str / bytes depends on the interpreter's hash seed, so it differs between two runs of the same program."""
+  out = []
+  def is_set(e):
+    return (isinstance(e, ast.Call) and ff.ext(e.func) in ('builtins.set', 'builtins.frozenset')) or isinstance(e, (ast.Set, ast.SetComp))
+  for n in ff.cfg.nodes:
+    if n.ast is None:
+      continue
+    for x in n.walk():
+      if isinstance(x, ast.Call) and ff.ext(x.func) in ('builtins.list', 'builtins.tuple', 'numpy.array', 'numpy.asarray') and x.args and is_set(x.args[0]):
+        out.append((x, txt(x)[:60]))
+      elif isinstance(x, ast.ListComp) and any(is_set(g.iter) for g in x.generators):
+        out.append((x, txt(x)[:60]))
+    if n.kind == 'for' and is_set(n.ast.iter):
+      appends = any(isinstance(c, ast.Call) and isinstance(c.func, ast.Attribute) and c.func.attr in ('append', 'extend') for c in ast.walk(n.ast))
+      yields = any(isinstance(c, (ast.Yield, ast.YieldFrom)) for c in ast.walk(n.ast))
+      if appends or yields:
+        out.append((n.ast.iter, 'for ... in ' + txt(n.ast.iter)[:50]))
+  return out
+
+
 MEMO = {'functools.lru_cache', 'functools.cache'}
 
 
@@ -276,6 +298,10 @@ def check_lints(check, funcs, rule_prefix: str = ''):
       check.ob('R-CACHE', fi, '@' + txt(d)[:60], False,
                f'the memoised result depends on more than the arguments: {w} changes at run time (backend selection, configuration), so a '
                'cached result outlives the state it was built for', node=d, exact=True)
+    for x, what in set_order_uses(ff):
+      check.ob('R-NONDET.set-order', fi, what, False,
+               'a sequence whose order comes from a set: for str / bytes elements it changes with the interpreter\'s hash seed, so a restarted '
+               'run does not see the same order (sort it, or keep the original order with dict.fromkeys)', node=x, exact=True)
     for st, nm in overwritten_accumulators(ff):
       check.ob('R-LOOPCARRY', fi, txt(st)[:80], False,
                f'`{nm}` is set before the loop and read after it, but the loop overwrites it in every iteration without reading the previous '
